@@ -214,8 +214,10 @@ def Server.fromClient (s : Server) (j : Nat) (m : Msg) (asg ord : List Nat) : HO
     | none => s.systemError eKey "request: clients[conn]"
     | some ids =>
       if !ids.contains ci || (assocGet s.tasks ci).isNone then
+        -- 'Unknown task.' is sent directly (before the connection is closed), then the
+        -- client is disconnected
         let r := s.disconnect j ord
-        { r with queued := [(NodeId.client j, Msg.sError eRuntime)] ++ r.queued }
+        { r with direct := [(NodeId.client j, Msg.sError eRuntime)] ++ r.direct }
       else
         match assocGet s.tasks ci with
         | none => s.systemError eKey "request"
